@@ -40,6 +40,7 @@ SNIPPETS = [
     # loops
     ("def f(n):\n    out = []\n    for i in range(n):\n        if i == 2:\n            continue\n        if i == 4:\n            break\n        out.append(i)\n    else:\n        out.append('done')\n    return out", [(3,), (6,), (0,)]),
     ("def f(n):\n    i = 0\n    while True:\n        i += 1\n        if i >= n:\n            break\n    return i", [(1,), (3,)]),
+    ("def f(xs, t):\n    i = 0\n    while i < len(xs):\n        if xs[i] == t:\n            break\n        i += 1\n    else:\n        return ('all', i)\n    return ('hit', i)", [([], 1), ([1, 2], 2), ([1, 2], 3), ([3], 3)]),
     ("def f(l):\n    return [x * 2 for x in l if x], {x: x for x in l}, any(x > 2 for x in l), all(x for x in l)", [([0, 1, 3],), ([],)]),
     ("def f(a, b):\n    return [x + y for x in a for y in b]", [([1, 2], [10, 20]), ([], [1])]),
     ("def f(l):\n    return [(i, x) for i, x in enumerate(l)], list(zip(l, l))", [([5, 6],)]),
